@@ -56,9 +56,13 @@ impl R {
     /// `ulps` is the accuracy granted to the leaf function itself.
     #[inline]
     pub fn leaf(x: R, fx: f64, dfx: f64, ulps: f64) -> R {
+        // second-order term 0.5 |f''| (u e_x)^2 / u with |f''| <= max(|f|, |f'|, 1) (true for the
+        // functions whose derivative can vanish while the function does not: sin, cos, sinh, cosh,
+        // exp, atan, asinh, tanh, ...; for the others the significance guard keeps it negligible)
+        let d2 = fx.abs().max(dfx.abs()).max(1.0);
         R {
             v: fx,
-            e: dfx.abs() * x.e * (1.0 + unit() * x.e) + ulps * fx.abs(),
+            e: dfx.abs() * x.e * (1.0 + unit() * x.e) + 0.5 * d2 * unit() * x.e * x.e + ulps * fx.abs(),
             m: fx.abs(),
             x: false,
         }
